@@ -163,10 +163,10 @@ func vmMatchTag(ctx *build.Context, name string) bool {
 
 // canonical decimal: digits only, no leading zero, no sign (what Itoa prints)
 func vmIsCanonicalNumber(d string) bool {
-	if len(d) == 0 || len(d) > 3 {
+	if d == "" {
 		return false
 	}
-	if !vInCharset(d, "0123456789") {
+	if strings.IndexFunc(d, func(c rune) bool { return c < '0' || c > '9' }) >= 0 {
 		return false
 	}
 	return d[0] != '0'
@@ -334,6 +334,21 @@ var (
 	vhGapAt    = -1 // option index after which the separator is two spaces (-1: never)
 )
 
+// vhTagWord: a generic word that is not of the form go1.*, or "go1." followed
+// by up to two digits (possibly none, possibly with a leading zero), or "go1."
+// followed by non-digit junk.
+func vhTagWord() string {
+	switch vConcretizeInt(vNondetInt("tagkind"), 0, 2) {
+	case 1:
+		return "go1." + vNondetWord("rel", "0123456789", 2)
+	case 2:
+		return "go1." + vNondetWord("junk", "abcdefghijklmnopqrstuvwxyz_.", 2)
+	}
+	t := vNondetWord("t", vhTagWordChars, 8)
+	vAssume(!vHasPrefix(t, "go1."))
+	return t
+}
+
 func vhShapedLine() string {
 	switch vhLineKind {
 	case 1:
@@ -363,7 +378,7 @@ func vhShapedLine() string {
 			case 2:
 				line += "!!"
 			}
-			line += vNondetWord("t", vhTagWordChars, 8)
+			line += vhTagWord()
 		}
 	}
 	// CommentGroup.Text trims trailing blanks of a line
